@@ -214,6 +214,19 @@ def enabled_events(tracks, w, kinds=None):
                     ev.append(("add_node", nid, 2, tid, False, "part_pos", None))
         if nodes:
             ev.append(("add_node", nodes[0], 1, nxt, False, "ok", pix0))
+        if w["seg"] and tracks.segmentation.dtype.kind in "ui" and tracks.segmentation.dtype.itemsize <= 2:
+            # an id that the label array cannot hold: refused by numpy when the mask is painted,
+            # whatever was done before (forced removal of a division, skip edge replaced)
+            wide = int(np.iinfo(tracks.segmentation.dtype).max) + 1
+            for t in range(worlds.nframes(w)):
+                pix = _block_bg(tracks, t)
+                if pix is None:
+                    continue
+                for tid in cand_tids:
+                    for force in (False, True):
+                        if tid >= nxt and force:
+                            continue
+                        ev.append(("add_node", wide, t, tid, force, "ok", pix))
     if want("swap"):
         for i, u in enumerate(nodes):
             for v in nodes[i + 1:]:
